@@ -14,10 +14,22 @@ def run(ctx):
                      ("ap", {"apA1A2", "apWdA1"})):
         c = sc.consts(cfg, sc.ALL_OPENS, ups, set(), set(), 5 if cfg != "ap" else 6, sessions=1)
         behs += sc.run_family(ctx, cfg, c, 6000 if big else 500, design=(cfg in ("ebgp", "cust")))
+    # negotiation must not depend on earlier sessions of the peer: all paths over two / three consecutive sessions with different
+    # OPENs (role present / absent / incompatible in strict mode; 4-octet AS capability present / absent; hold time 90 / 0), for a
+    # passive peer (a new FSM per connection, state kept in the peer) and an active one (one FSM reused)
+    seq = [("custS", {"roleProv", "ok", "rolePeer"}, {"annA"}, {"Notification"}, 7), ("ebgp", {"ok", "okNoAS4"}, {"annA"}, {"Notification"}, 9),
+           ("ebgpA", {"ok", "okNoAS4"}, {"annA"}, {"Notification"}, 9), ("ebgpA", {"ok", "hold0"}, set(), {"Notification", "Wait"}, 9)]
+    for cfg, opens, ups, stops, depth in seq:
+        c = sc.consts(cfg, opens, ups, set(), stops, depth, sessions=2)
+        # always replayed: a second session that gets as far as possible (the longest paths), whatever the first one was
+        behs += sc.run_family(ctx, "consecutive sessions %s %s" % (cfg, "+".join(sorted(opens))), c, 5000 if big else 150, design=False, allpaths=True,
+                              keep=lambda b: len(b) == depth and b[-1]["s"]["nsess"] == 2 and b[-1]["s"]["st"] == "Established"
+                              and b[-1]["a"] in ("Wait", "RecvUpdate") and b[-2]["a"] == "RecvKeepalive")
     ctx.rule = ("17 OPEN classes (configured / other / AS_TRANS peer AS with and without matching 4-octet capability, identifier ok / 0 / "
                 "ours, hold time 0 1 2 3 30 90, version 3, RFC 9234 roles) x 6 local configurations (eBGP, iBGP, hold time 3, role "
                 "customer, strict role mode, add-path receive); expected verdict = OpenVerdict (NOTIFICATION code/subcode and closed "
                 "connection, or KEEPALIVE and OpenConfirm with hold time = min of both offers); accepted sessions go on to Established "
                 "and exchange UPDATEs encoded with the negotiated options (2- or 4-octet AS_PATH, add-path identifiers, MP_REACH); "
-                "non-trivial = an OPEN was delivered in OpenSent")
+                "consecutive sessions with different OPENs on one peer (all paths, passive and active peer): what was negotiated before must "
+                "not matter; non-trivial = an OPEN was delivered in OpenSent")
     ctx.replay("session", behs, per_timeout=90, shards=16, nontrivial=lambda b: any(s["a"] == "RecvOpen" for s in b))
